@@ -10,6 +10,9 @@ import PdtVerif.Model.Checkpoint
   saved for them.
 Anything else may lie around (temp files, superseded checkpoints): garbage is allowed.
 
+`SafeAt` / `SafeFmt`: the file-name condition under which an update is crash safe (checkpoint
+before history row); `Inj` (formats with `{epoch}`) implies it for every metric history.
+
 `ExactLB`: the directory holds the files of the last and best recorded epoch and nothing else.
 `AllLoadable`: every recorded epoch can be loaded with exactly its state.
 -/
@@ -21,6 +24,7 @@ def csvHealthy : Option (List Line) → Bool
   | some [] => true
   | some (.header :: _) => true
   | some (.row _ :: _) => false
+  | some (.torn :: _) => false
 
 def Rec (P : Params) (vals : List (Option Int)) (tr : Train) (d : Disk) : Prop :=
   ∃ k, recorded d = some k ∧ csvHealthy d.csv = true ∧ k ≤ vals.length ∧
@@ -70,5 +74,24 @@ def RecAll (P : Params) (vals : List (Option Int)) (tr : Train) (d : Disk) (k : 
 structure Inj (P : Params) : Prop where
   km : ∀ a b, P.km a = P.km b → a = b
   ko : ∀ a b, P.ko a = P.ko b → a = b
+
+/-- The update of epoch `k+1` is *checkpoint-first*: it does not refuse and the code's
+`save_info_first` is `False` — the new file names differ from those of the last and of the
+last-best epoch (keep-last-and-best) / of every recorded epoch (keep-everything). Depends on the
+formats and the metric history only, not on the disk. -/
+def SafeAt (P : Params) (vals : List (Option Int)) (k : Nat) : Prop :=
+  refuses P vals k = false ∧ infoFirst Quirks.fixed P vals k Disk.blank = false
+
+/-- Every update of the metric history is checkpoint-first. Weaker than `Inj`: formats that depend
+on a metric (or on the epoch modulo something) qualify for the histories on which no two epochs that
+are alive together share a name. -/
+def SafeFmt (P : Params) (vals : List (Option Int)) : Prop :=
+  ∀ k, k < vals.length → SafeAt P vals k
+
+/-- Keep-last-and-best: the last epoch `k` and the best epoch do not share a file name (unless they
+are the same epoch). Established by every update that did not refuse (`refuses … (k-1) = false`). -/
+def Sep (P : Params) (vals : List (Option Int)) (k : Nat) : Prop :=
+  P.keepLB = true → bestOf (vals.take k) ≠ k →
+    P.km k ≠ P.km (bestOf (vals.take k)) ∧ P.ko k ≠ P.ko (bestOf (vals.take k))
 
 end PdtVerif.Checkpoint
